@@ -36,7 +36,11 @@ def assignnode(cmd, ctx, st):
         nd = []
     fails = []
     for d in nd:
-        cls = "gen_assignnode_panic" if d["node"] == "panic" else "gen_assignnode_differs"
+        if d.get("safe"):
+            # neither a typed map nor a recursive value behind a Maybe: nothing of the known defect applies
+            cls = "gen_assignnode_unexplained"
+        else:
+            cls = "gen_assignnode_panic" if d["node"] == "panic" else "gen_assignnode_differs"
         fails.append({"case": d["case"], "classes": [cls], "verdict": "fail:" + cls})
     runs = sum(b.get("node_runs", 0) for b in st)
     return [{"name": "generated builders: AssignNode(basicnode tree) == plain call sequence (%d runs) — checked, not modelled" % runs,
